@@ -128,8 +128,19 @@ def _init_worker(root, verif):
     _ROOT = root
     if verif not in sys.path:
         sys.path.insert(0, verif)
-    sys.setrecursionlimit(max(sys.getrecursionlimit(), 3000))
     build.activate(root)
+    # the library is imported under the interpreter's default recursion limit (what a user's process has when the
+    # modules are first loaded); only then is the limit raised for the harness's own recursive helpers
+    import pkgutil
+    import calmjs.parse
+    for m in pkgutil.walk_packages(calmjs.parse.__path__, 'calmjs.parse.'):
+        if '.tests' in m.name or m.name.endswith('.optimize') or 'tab_' in m.name.rsplit('.', 1)[-1]:
+            continue
+        try:
+            importlib.import_module(m.name)
+        except Exception:
+            pass   # whatever fails to import will fail again, visibly, where a check needs it
+    sys.setrecursionlimit(max(sys.getrecursionlimit(), 3000))
     quiet_library_logging()
 
 
@@ -364,10 +375,20 @@ def _main(prop, args, seed, root, t0):
         for s in shards:
             results.append(_run_shard((modname, s)))
     else:
-        with ctx.Pool(nproc, initializer=_init_worker, initargs=(root, VERIF),
-                      maxtasksperchild=None) as pool:
-            for r in pool.imap_unordered(_run_shard, [(modname, s) for s in shards], chunksize=1):
-                results.append(r)
+        # an executor, not mp.Pool: when a worker dies outright (fatal interpreter error, killed) the pool
+        # reports it instead of waiting for ever
+        from concurrent.futures import ProcessPoolExecutor, as_completed
+        from concurrent.futures.process import BrokenProcessPool
+        try:
+            with ProcessPoolExecutor(nproc, mp_context=ctx, initializer=_init_worker,
+                                     initargs=(root, VERIF)) as pool:
+                futs = [pool.submit(_run_shard, (modname, s)) for s in shards]
+                for fut in as_completed(futs):
+                    results.append(fut.result())
+        except BrokenProcessPool:
+            print('HARNESS-ERROR: a worker process died (fatal interpreter error or kill); %d of %d shards had finished'
+                  % (len(results), len(shards)))
+            return 2
     m = merge(results)
     if m['errors']:
         print('HARNESS-ERROR: %d shard(s) crashed' % len(m['errors']))
